@@ -218,7 +218,7 @@ fn observe(c: &mut Case, label: &str, root: &Path, art_base: &Path, expected: Op
 
 /// textual mutations of rendered project files; returns a description
 fn mutate(files: &mut Vec<(PathBuf, String)>, rng: &mut Rng) -> Option<String> {
-    let kind = rng.below(8);
+    let kind = rng.below(10);
     // group file indices by package directory
     let mut by_pkg: BTreeMap<String, Vec<usize>> = BTreeMap::new();
     for (i, (p, _)) in files.iter().enumerate() {
@@ -295,6 +295,22 @@ fn mutate(files: &mut Vec<(PathBuf, String)>, rng: &mut Rng) -> Option<String> {
             let fi = group[group.len() - 1];
             files[fi].1.push_str("\nfn mk(v: int32) -> int32 { v }\n");
             Some(format!("second definition of mk added to {}", files[fi].0.display()))
+        }
+        8 | 9 => {
+            // a package that imports itself (a dependency cycle of length one), in a library or in Main
+            let cands: Vec<usize> = (0..files.len()).filter(|i| files[*i].1.starts_with("package ")).collect();
+            if cands.is_empty() {
+                return None;
+            }
+            let fi = *rng.pick_ref(&cands);
+            let first_line = files[fi].1.lines().next()?.to_string();
+            let own = first_line.trim_start_matches("package ").trim().to_string();
+            if kind == 9 && own != "Main" {
+                // Main only
+                return None;
+            }
+            files[fi].1 = files[fi].1.replacen(&first_line, &format!("{}\nimport {}", first_line, own), 1);
+            Some(format!("{} imports its own package {}", files[fi].0.display(), own))
         }
         _ => {
             let cands: Vec<usize> = (0..files.len()).filter(|i| files[*i].1.starts_with("package ") && !files[*i].1.starts_with("package Main")).collect();
@@ -453,6 +469,54 @@ fn run(ctx: &mut Ctx) {
             }
         }
     }
+    // a package that imports itself: the whole-program path cannot even order such a project, so the separate path is
+    // driven with the order a user would give (library first); both must give the same verdict
+    for (i, (who, lib_hdr, main_hdr)) in [("library", "package Lib\nimport Lib\n", "package Main\nimport Lib\n"), ("main", "package Lib\n", "package Main\nimport Lib\nimport Main\n"), ("control", "package Lib\n", "package Main\nimport Lib\n")].into_iter().enumerate() {
+        if !ctx.mine(65_000 + i as u64) {
+            continue;
+        }
+        let files: Vec<(PathBuf, String)> = vec![
+            (PathBuf::from("Lib/lib.gom"), format!("{}\nfn f(x: int32) -> int32 {{ x + 1 }}\n", lib_hdr)),
+            (PathBuf::from("main.gom"), format!("{}\nfn main() {{\n    let _ = string_println(int32_to_string(Lib::f(1)));\n    ()\n}}\n", main_hdr)),
+        ];
+        let root = scratch.join(format!("c14i-{}", i));
+        let art = scratch.join(format!("c14i-{}-art", i));
+        let _ = std::fs::remove_dir_all(&root);
+        let order: Vec<usize> = (0..files.len()).collect();
+        let label = format!("self-import/{}", who);
+        ctx.case(&label.clone(), |c| {
+            if projgen::materialize(&root, &files, &order).is_err() {
+                c.inconclusive("cannot materialise project");
+                return;
+            }
+            let srcs: String = files.iter().map(|(p, t)| format!("// ---- {}\n{}\n", p.display(), t)).collect();
+            runner::note_input(&srcs);
+            let whole = runner::guard(|| projdrv::observe_whole(&root));
+            let mut dirs: BTreeMap<String, PathBuf> = BTreeMap::new();
+            dirs.insert("Lib".into(), root.join("Lib"));
+            dirs.insert("Main".into(), root.clone());
+            let sep = runner::guard(|| projdrv::observe_separate(&root, &["Lib".to_string(), "Main".to_string()], &dirs, &art));
+            match (whole, sep) {
+                (Ok(w), Ok(sp)) => {
+                    let whole_ok = w.get("whole/result").map_or(false, |r| r == "ok");
+                    c.count("project_observations", 1);
+                    c.count("self_import_projects", 1);
+                    if whole_ok != sp.accepted {
+                        c.violation(
+                            format!("C14:acceptance-differs:self-import:{}", who),
+                            format!("a project whose {} package imports itself: whole-program compile {} it, check / build / link {} it", who, if whole_ok { "accepts" } else { "rejects" }, if sp.accepted { "accepts" } else { "rejects" }),
+                            json!({"label": label, "sources": srcs, "whole_diagnostics": w.get("whole/diagnostics")}),
+                        );
+                    } else if who == "control" && !whole_ok {
+                        c.inconclusive("the control project is rejected");
+                    }
+                }
+                _ => c.inconclusive("compiler panic (a C04 event)"),
+            }
+        });
+        let _ = std::fs::remove_dir_all(&root);
+        let _ = std::fs::remove_dir_all(&art);
+    }
     // generated projects and their mutants
     let np = tier.pick(96u64, 2_400u64) / ctx.nshards as u64 + 1;
     for i in 0..np {
@@ -462,6 +526,7 @@ fn run(ctx: &mut Ctx) {
         for l in proj.libs.iter_mut() {
             if rng.chance(2, 3) {
                 l.n_files = 2 + rng.below(2) as u8;
+                l.mixed_case_files = rng.chance(1, 3);
             }
         }
         let mut files = proj.render();
